@@ -289,8 +289,8 @@ func (app *App) addPrefixToRoute(prefix string, route *Route) *Route {
 	route.routeParser = parseRoute(prettyPath, app.customConstraints...)
 	// The prefix may carry parameters of its own: the names are those of the whole path
 	route.Params = parseRoute(prefixedPath, app.customConstraints...).params
-	route.root = false
-	route.star = false
+	route.root = route.path == "/"
+	route.star = route.path == "/*"
 
 	return route
 }
